@@ -18,9 +18,9 @@
     - [d_nil_validator]: a rule contract that cannot be instantiated yields a typed-nil validator,
       dereferenced inside the proof goroutine;
     - [d_evm_interchain_norecover]: [evmInterchain] calls [InvokeBVM] directly, not through [Run];
-    - [d_nil_address]: a transaction with a nil From, or a native transfer with a nil To, makes the
-      ledger dereference the nil address in the executor goroutine (such transactions are refused
-      by the API admission check, but not by block execution).
+    - [d_nil_to] / [d_nil_from]: a funded native transfer with a nil To, resp. any transaction with
+      a nil From, makes the ledger dereference the nil address in the executor goroutine (such
+      transactions are refused by the API admission check, but not by block execution).
     Definitions only. *)
 From Coq Require Import String.
 From BX Require Import Base.Prelude Model.Sites.
@@ -37,14 +37,15 @@ Record dcfg := {
   d_checkproof_nil_err : bool;
   d_nil_validator : bool;
   d_evm_interchain_norecover : bool;
-  d_nil_address : bool
+  d_nil_to : bool;
+  d_nil_from : bool
 }.
 Definition dcfg_fixed : dcfg :=
   {| d_promoted_dispatch := false; d_evm_wipes_revisions := false; d_checkproof_nil_err := false;
-     d_nil_validator := false; d_evm_interchain_norecover := false; d_nil_address := false |}.
+     d_nil_validator := false; d_evm_interchain_norecover := false; d_nil_to := false; d_nil_from := false |}.
 Definition dcfg_faithful : dcfg :=
   {| d_promoted_dispatch := true; d_evm_wipes_revisions := true; d_checkproof_nil_err := true;
-     d_nil_validator := true; d_evm_interchain_norecover := true; d_nil_address := true |}.
+     d_nil_validator := true; d_evm_interchain_norecover := true; d_nil_to := true; d_nil_from := true |}.
 
 (** ------------------------------------------------------------------------------------ *)
 (** reflection *)
@@ -139,7 +140,8 @@ Inductive body :=
 | BIbtp (beh : behaviour)
 | BEth (evm_ok : bool) (interbroker_log : bool) (c : bvm_call)
 | BUnknownTxType
-| BNilAddress                (* nil From, or nil To of a funded native transfer *)
+| BNilTo                     (* funded native transfer with a nil To *)
+| BNilFrom                   (* nil From *)
 | BOpaque.                   (* bytes whose decoding is not predicted: decodes to one of the classes above *)
 
 Inductive proofc :=
@@ -221,7 +223,8 @@ Definition apply_dtx (c : dcfg) (invalid : bool) (t : dtx) : outcome (option boo
   if invalid then Ret (Some false)
   else match dt_body t with
        | BNilPayload | BBadTxData | BWrongVm | BUnknownTxType => Ret (Some false)
-       | BNilAddress => if d_nil_address c then Crash else Ret (Some false)
+       | BNilTo => if d_nil_to c then Crash else Ret (Some false)
+       | BNilFrom => if d_nil_from c then Crash else Ret (Some false)
        | BOpaque => Ret None
        | BTransfer ok => Ret (and_fee ok (dt_fee_ok t))
        | BXvm ok => Ret (and_fee ok (dt_fee_ok t))
